@@ -86,23 +86,26 @@ def main(tier):
                        'hand-off length vs. kernel entry guards), pointer-provenance dataflow over all 35 gf_<n>vect_mad_<isa> kernels (stores and read-modify loads only through parity pointers, '
                        'source read-only) and the two gf_vect_mul kernels incl. their length-multiple guard. Accumulate-once on overlapped tails is not decided.')
     rep.trusted = ['nasm/objdump decoding', 'ASMFLOW transfer functions (fail-closed)', 'SysV argument roles from include/erasure_code.h / gf_vect_mul.h', 'clang AST']
-    ecwrap.check_wrappers(rep, 'update')
-    c03.check_kernel_stores(rep, 'mad', 'P-MAD-STORE', 35)
-    c03.check_kernel_stores(rep, 'mul', 'P-MUL-STORE', 2)
-    check_mul_guard(rep)
-    provenance.check_undef(rep, {'ec_mad', 'ec_mul'}, 'MAD', 37)
-    provenance.check_kwidth(rep, {'ec_mad', 'ec_mul'}, 'MAD', 37)
-    gftype.check(rep, {'ec_mad', 'ec_mul'}, 'MAD', 37)
+    rep.attempt(ecwrap.check_wrappers, rep, 'update')
+    rep.attempt(c03.check_kernel_stores, rep, 'mad', 'P-MAD-STORE', 35)
+    rep.attempt(c03.check_kernel_stores, rep, 'mul', 'P-MUL-STORE', 2)
+    rep.attempt(check_mul_guard, rep)
+    rep.attempt(provenance.check_undef, rep, {'ec_mad', 'ec_mul'}, 'MAD', 37)
+    rep.attempt(provenance.check_kwidth, rep, {'ec_mad', 'ec_mul'}, 'MAD', 37)
+    rep.attempt(gftype.check, rep, {'ec_mad', 'ec_mul'}, 'MAD', 37)
     import bounds
-    bounds.check(rep, {'ec_mad', 'ec_mul'}, 'MAD', 37)
+    rep.attempt(bounds.check, rep, {'ec_mad', 'ec_mul'}, 'MAD', 37)
     import gfrows
-    gfrows.check(rep, 35)
+    rep.attempt(gfrows.check, rep, 35)
     import baseloops
-    baseloops.check(rep, 'UPD', ['ec_encode_data_update_base', 'gf_vect_mad_base', 'gf_vect_mul_base'], 4)
+    rep.attempt(baseloops.check, rep, 'UPD', ['ec_encode_data_update_base', 'gf_vect_mad_base', 'gf_vect_mul_base'], 4)
     import eclayout
-    eclayout.check(rep, 'UPD', ['ec_encode_data_update_base', 'gf_vect_mad_base'], 2, writer=False)
+    rep.attempt(eclayout.check, rep, 'UPD', ['ec_encode_data_update_base', 'gf_vect_mad_base'], 2, writer=False)
     import stridecover
-    stridecover.check(rep, 'MAD', {'ec_mad', 'ec_mul'}, 250)
+    rep.attempt(stridecover.check, rep, 'MAD', {'ec_mad', 'ec_mul'}, 250)
     import gfhalf
-    gfhalf.check(rep, 'MAD', {'ec_mad'}, 'rcx', ('rdx',), 260)
+    rep.attempt(gfhalf.check, rep, 'MAD', {'ec_mad'}, 'rcx', ('rdx',), 260)
+    import tailguard, earlypass
+    rep.attempt(tailguard.check, rep, 'MAD', {'ec_mad', 'ec_mul'}, 32, 5)
+    rep.attempt(earlypass.check, rep, 'MAD', {'ec_mad', 'ec_mul'}, 2)
     return rep.finish()
